@@ -209,3 +209,199 @@ def local_memo_stores(fn):
         # comprehension-local variables of the value are not dependencies
         comp = {x.id for c in ast.walk(stores[0].value) if isinstance(c, ast.comprehension) for x in ast.walk(c.target) if isinstance(x, ast.Name)}
         yield n, d, key, vdeps - comp, kdeps
+
+
+# ---------------------------------------------------------------- conditional reuse of stored state
+def _self_attr(n, selfname):
+    return isinstance(n, ast.Attribute) and isinstance(n.value, ast.Name) and n.value.id == selfname
+
+
+def _terminates(block):
+    return bool(block) and isinstance(block[-1], (ast.Return, ast.Raise, ast.Continue, ast.Break))
+
+
+class Reuse:
+    """one attribute of the object that a state-setting method may carry over from an earlier call."""
+    def __init__(self, attr, node, how):
+        self.attr, self.node, self.how = attr, node, how
+        self.value_deps = set()   # parameters the (re)computed value depends on
+        self.guard_deps = set()   # parameters the tests controlling the recomputation depend on
+        self.guards = []
+
+
+def state_reuse(fn, skip_guards=()):
+    """A state-setting method ``fn(self, *params)`` is *memoryless* when every attribute it assigns is assigned on every
+    path before it is read, so that the object's rate-dependent state after the call is a function of the arguments (and
+    of state the method never writes).  For every attribute ``a`` in the method's own write set that is read (directly:
+    ``self.a``, ``k in self.a``, ``self.a[k]``, ``self.a.get``) before it has been assigned on all paths, or that is only
+    assigned under a condition, return a ``Reuse`` with
+      value_deps : parameters the stored value(s) of ``a`` depend on (through locals and through other attributes written
+                   by the method), and
+      guard_deps : parameters the conditions that decide between keeping and recomputing depend on.
+    Reuse is sound only if value_deps <= guard_deps.  Reads inside the tests of ``skip_guards`` (early-return memo guards,
+    judged by their own rule) are ignored.  Flow-sensitive on the structured AST; names only."""
+    if not fn.args.args:
+        return []
+    s = fn.args.args[0].arg
+    params = {a.arg for a in fn.args.args[1:] + fn.args.kwonlyargs}
+    skip = {id(g) for g in skip_guards}
+    # write set (rebinding or in-place store through a subscript / augmented assignment)
+    wset = {}
+    for n in walk_local(fn):
+        if _self_attr(n, s) and isinstance(n.ctx, ast.Store):
+            wset.setdefault(n.attr, []).append(n)
+        if isinstance(n, ast.Subscript) and isinstance(n.ctx, ast.Store) and _self_attr(n.value, s):
+            wset.setdefault(n.value.attr, []).append(n)
+    if not wset:
+        return []
+    # dependency closure: locals and written attributes -> parameters
+    defs = {}
+
+    def add_def(name, value_names):
+        defs.setdefault(name, set()).update(value_names)
+
+    def names_of(e):
+        out = set()
+        for x in ast.walk(e):
+            if isinstance(x, ast.Name) and x.id != s:
+                out.add(x.id)
+            elif _self_attr(x, s) and x.attr in wset:
+                out.add('self.' + x.attr)
+        return out
+
+    for n in walk_local(fn):
+        if isinstance(n, (ast.Assign, ast.AugAssign, ast.AnnAssign)) and getattr(n, 'value', None) is not None:
+            tgts = n.targets if isinstance(n, ast.Assign) else [n.target]
+            used = names_of(n.value)
+            for t in tgts:
+                for x in ast.walk(t):
+                    if isinstance(x, ast.Name) and isinstance(x.ctx, ast.Store):
+                        add_def(x.id, used)
+                    elif _self_attr(x, s) and isinstance(x.ctx, ast.Store):
+                        add_def('self.' + x.attr, used)
+                    elif isinstance(x, ast.Subscript) and isinstance(x.ctx, ast.Store):
+                        base = x.value
+                        key = names_of(x.slice)
+                        if _self_attr(base, s):
+                            add_def('self.' + base.attr, used | key)
+                        elif isinstance(base, ast.Name):
+                            add_def(base.id, used | key)
+        elif isinstance(n, (ast.For, ast.comprehension)):
+            used = names_of(n.iter)
+            for x in ast.walk(n.target):
+                if isinstance(x, ast.Name):
+                    add_def(x.id, used)
+        elif isinstance(n, ast.Call) and isinstance(n.func, ast.Attribute) and n.func.attr in ('append', 'extend', 'update', 'add', 'insert', 'setdefault'):
+            used = set()
+            for a in n.args:
+                used |= names_of(a)
+            b = n.func.value
+            if _self_attr(b, s):
+                add_def('self.' + b.attr, used)
+            elif isinstance(b, ast.Name):
+                add_def(b.id, used)
+
+    def closure(names, stop=()):
+        seen, todo = set(), list(names)
+        while todo:
+            x = todo.pop()
+            if x in seen or x in stop:
+                continue
+            seen.add(x)
+            todo.extend(defs.get(x, ()))
+        return seen
+
+    # definite assignment, in program order
+    found = {}
+
+    def reads_in(e, assigned, conds):
+        for x in ast.walk(e):
+            if _self_attr(x, s) and isinstance(x.ctx, ast.Load) and x.attr in wset and x.attr not in assigned:
+                # a Load that is the base of a subscript *store* is a partial update of old state, too
+                r = found.setdefault(x.attr, Reuse(x.attr, x, 'read before it is assigned on every path'))
+                r.guards.extend(c for c in conds if c not in r.guards)
+
+    def stores_in(st):
+        out = set()
+        tgts = st.targets if isinstance(st, ast.Assign) else [st.target] if isinstance(st, (ast.AnnAssign,)) else []
+        for t in tgts:
+            for x in ([t] if not isinstance(t, (ast.Tuple, ast.List)) else t.elts):
+                if _self_attr(x, s):
+                    out.add(x.attr)
+        return out
+
+    def block(stmts, assigned, conds):
+        assigned = set(assigned)
+        for st in stmts:
+            if isinstance(st, ast.If):
+                if id(st) in skip:
+                    continue
+                reads_in(st.test, assigned, conds + [st.test])
+                a1 = block(st.body, assigned, conds + [st.test])
+                a2 = block(st.orelse, assigned, conds + [st.test])
+                if _terminates(st.body) and not _terminates(st.orelse):
+                    assigned = a2
+                elif _terminates(st.orelse) and st.orelse and not _terminates(st.body):
+                    assigned = a1
+                else:
+                    assigned = a1 & a2
+                # attributes assigned on one side only are carried over on the other: the tests decide
+                for a in (a1 ^ a2) - assigned:
+                    if not (_terminates(st.body) or _terminates(st.orelse)):
+                        r = found.setdefault(a, Reuse(a, st, 'assigned only under a condition'))
+                        if st.test not in r.guards:
+                            r.guards.append(st.test)
+            elif isinstance(st, (ast.For, ast.While)):
+                reads_in(st.iter if isinstance(st, ast.For) else st.test, assigned, conds)
+                block(st.body, assigned, conds)     # the body may run zero times: nothing becomes definitely assigned
+                block(st.orelse, assigned, conds)
+            elif isinstance(st, (ast.With,)):
+                for it in st.items:
+                    reads_in(it.context_expr, assigned, conds)
+                assigned = block(st.body, assigned, conds)
+            elif isinstance(st, ast.Try):
+                block(st.body, assigned, conds)
+                for h in st.handlers:
+                    block(h.body, assigned, conds)
+                assigned = block(st.finalbody, assigned, conds)
+            elif isinstance(st, (ast.FunctionDef, ast.ClassDef)):
+                continue
+            else:
+                v = getattr(st, 'value', None)
+                if isinstance(st, ast.AugAssign):
+                    reads_in(st.target, assigned, conds) if not isinstance(st.target, ast.Name) else None
+                    if _self_attr(st.target, s) and st.target.attr in wset and st.target.attr not in assigned:
+                        found.setdefault(st.target.attr, Reuse(st.target.attr, st, 'updated in place from its previous value')) \
+                            .guards.extend(c for c in conds if c not in found[st.target.attr].guards)
+                if v is not None:
+                    reads_in(v, assigned, conds)
+                for t in (st.targets if isinstance(st, ast.Assign) else []):
+                    # loads inside a store target: self.a[k] = v reads self.a
+                    for x in ast.walk(t):
+                        if isinstance(x, ast.Subscript) and isinstance(x.ctx, ast.Store):
+                            reads_in(x.value, assigned, conds)
+                            reads_in(x.slice, assigned, conds)
+                if isinstance(st, ast.Expr):
+                    pass
+                assigned |= stores_in(st)
+        return assigned
+
+    block(fn.body, set(), [])
+    out = []
+    for a, r in sorted(found.items()):
+        vals = set()
+        for w in wset[a]:
+            st = w
+            while not isinstance(st, ast.stmt):
+                st = st._parent
+            if getattr(st, 'value', None) is not None:
+                vals |= names_of(st.value)
+            if isinstance(w, ast.Subscript):
+                vals |= names_of(w.slice)
+        r.value_deps = closure(vals, stop={'self.' + a}) & params
+        g = set()
+        for t in r.guards:
+            g |= names_of(t)
+        r.guard_deps = closure(g, stop={'self.' + a}) & params
+        out.append(r)
+    return out
